@@ -23,6 +23,7 @@ Check (C05_recursion_fuel_enough : forall doc d e,
 Check (C05_is_subtype_covariant_correct : forall doc a b, check_doc doc = [] -> unique_names doc = true ->
   defined doc (base_name a) = true -> defined doc (base_name b) = true ->
   (is_subtype doc a b = Some true <-> valid_impl_field_type doc a b = true)).
+Check (C05_no_implements_cycle : forall doc, check_doc doc = [] -> unique_names doc = true -> implements_acyclic doc).
 Check (C05_resolve_rejects_same_kind_dup : forall doc, same_kind_dup doc = true -> resolve_fails doc = true).
 (* the definitions the statements rest on are the ones the correspondence run evaluates *)
 Check (eq_refl : rule_ok_impl = rule_ok_gen false).
@@ -41,4 +42,5 @@ Print Assumptions C05_sound_directive_recursive_nested_refuted.
 Print Assumptions C05_directive_recursion_exact.
 Print Assumptions C05_recursion_fuel_enough.
 Print Assumptions C05_is_subtype_covariant_correct.
+Print Assumptions C05_no_implements_cycle.
 Print Assumptions C05_resolve_rejects_same_kind_dup.
